@@ -206,5 +206,5 @@ def finalize(ctx, acc):
     for k in ("partitions_with_1_dex", "partitions_with_2_dex", "partitions_with_3_dex", "partitions_with_4_dex", "cross_dex_interactions"):
         if not x.get(k):
             acc.harness_error("vacuity: %s is zero" % k)
-    if len(acc.outcomes) < 60 or len(acc.states) < acc.traces:
+    if len(acc.outcomes) < 60 or len(acc.states) < 200:
         acc.harness_error("vacuity: %d distinct final dumps, %d states for %d traces" % (len(acc.outcomes), len(acc.states), acc.traces))
